@@ -543,6 +543,5 @@ def run(ctx):
 
 
 def replay(ctx, path):
-    d = json.load(open(path))
-    print(json.dumps(d["primary"], indent=1)[:4000])
-    return 0
+    import replaylib
+    return replaylib.replay_file(path)
